@@ -6,5 +6,6 @@
 pub mod c01;
 pub mod c10;
 pub mod c11;
+pub mod c12;
 pub mod c19;
 pub mod c20;
